@@ -697,6 +697,53 @@ static void prop(Tape &t, Ctx &c) {
             }
         }
     }
+    // ---- second tail phase (appended draws again): a connection that NAMES a victim's cached session id without ever holding that cache entry.
+    // B resumes with its own valid RFC 5077 ticket and puts victim V's id into ClientHello.session_id (the server echoes it, RFC 5077 3.4);
+    // variants: the same with a fatal alert provoked on that connection, or a ticket-less hello naming the id that dies before the cache lookup.
+    // Follow-ups: V's owner resumes its id honestly; the attacker offers V's id with the secret and suite of its own ticket session.
+    if (t.below(4) == 3) {
+        c.count("case:foreign-id");
+        int ver = (int) t.below(2); auto cand = case_suites(w, ver);
+        const Suite &su = cand[t.below(cand.size())], &su2 = cand[t.below(cand.size())];
+        int cv = (int) t.below(ncl); int ems = t.chance(1, 4) ? -1 : 0;
+        w.cl.emplace_back(); if (matrixSslNewSessionId(&w.cl.back().sid, NULL) < 0) throw Discard{};
+        int att = (int) w.cl.size() - 1;
+        if (w.A.tk.empty()) { if (!load_key(w.A, make_key(w, t))) throw Discard{}; w.note("AddKey"); }
+        w.force_keep = t.coin() ? 1 : 0; do_full(cv, 0, ver, su, ems, false);              // the victim (its connection stays open or not)
+        int x = w.cl[cv].cred;
+        w.force_keep = 0; do_full(att, 0, ver, su2, t.chance(1, 4) ? -1 : 0, true);        // the attacker's own, legitimate ticket session
+        int tk = w.cl[att].cred; w.force_keep = -1;
+        if (x >= 0 && tk >= 0 && w.creds[x].kind == CK_ID && w.creds[tk].kind == CK_TICKET && w.creds[x].secret != w.creds[tk].secret) {
+            unsigned variant = (unsigned) t.below(4); uint32_t r1 = t.u8();
+            const Cred X = w.creds[x], T = w.creds[tk]; Client &ak = w.cl[att];
+            if (variant <= 2) {
+                install(w, att, tk); c14_sid_set_id(ak.sid, X.ident.data(), (int) X.ident.size()); ak.dirty = true;
+                Mitm m = nullptr; std::string kind = "Resume-ticket-with-foreign-session-id";
+                if (variant == 2) { kind += "+fatal"; w.disturbed = true; m = [r1](int dir, int nth, Bytes &d, Pair &) { if (dir == 0 && nth == 1 && !d.empty()) d[d.size() - 1 - (r1 % std::min<size_t>(d.size(), 16))] ^= 0x10; }; }
+                w.note(fmt("%s(c%d,%s,naming %s)", kind.c_str(), att, cred_str(w, tk).c_str(), cred_str(w, x).c_str()));
+                w.force_keep = t.chance(1, 4) ? 1 : 0;
+                do_attempt(att, tk, matching_hello(T), kind, "", false, false, m, kind);        // a legitimate resumption of the ticket; what matters is what it does to V's entry
+                w.force_keep = -1;
+            } else {
+                matrixSslClearSessionId(ak.sid); unsigned char junk[48]; t.bytes(junk, 48);
+                c14_sid_set_cipher(ak.sid, X.suite); c14_sid_set_master(ak.sid, junk); c14_sid_set_id(ak.sid, X.ident.data(), (int) X.ident.size()); ak.cred = -1; ak.dirty = true;
+                bool edited = false; w.disturbed = true;
+                Mitm m = [&edited](int dir, int nth, Bytes &d, Pair &) { if (dir == 0 && nth == 0) { CH ch = parse_ch(d); if (ch.ok && ch.ext_len_off) { d[ch.ext_len_off + 1] ^= 1; edited = true; } } };
+                w.note(fmt("Hello-naming-victim-id-dies-before-lookup(c%d,%s)", att, cred_str(w, x).c_str()));
+                do_attempt(att, x, matching_hello(X), "Hello-naming-victim-id-dies-before-lookup", "wire-edited-handshake-resumes", false, false, m, "Hello-naming-victim-id-dies-before-lookup", &edited);
+            }
+            size_t nf = 1 + t.below(2); bool owner_first = t.coin();
+            for (size_t i = 0; i < nf; i++) {
+                if ((i == 0) == owner_first) honest_resume(cv, x);
+                else {
+                    matrixSslClearSessionId(ak.sid); c14_sid_set_cipher(ak.sid, T.suite); c14_sid_set_master(ak.sid, T.secret.data()); c14_sid_set_id(ak.sid, X.ident.data(), (int) X.ident.size()); ak.cred = -1; ak.dirty = true;
+                    Hello h2{ X.ver, X.ems ? 0 : -1, { T.suite }, false };
+                    w.note(fmt("Resume-victim-id-with-own-secret(c%d,%s,secret+suite of %s)", att, cred_str(w, x).c_str(), cred_str(w, tk).c_str()));
+                    do_attempt(att, x, h2, "Resume-victim-id-with-own-secret", "resumed-with-wrong-secret:other-session", false, false, nullptr, "Resume-victim-id-with-own-secret");
+                }
+            }
+        } else c.count("foreign-id-unusable");
+    }
     c.count(did_nontrivial ? "case:nontrivial" : "case:trivial");
     c.count(fmt("case:clients=%zu", ncl));
     c.sample(w.trace);
